@@ -1,5 +1,6 @@
 import PgFdr.Proofs.C18
 import PgFdr.Proofs.PipelineC18
+import PgFdr.Proofs.Cli
 
 /-!
 # C18 — every shipped method configuration is usable from the command line
@@ -350,5 +351,278 @@ example : ∃ r, Pipeline.run Pipeline.demoCfg2 Pipeline.demoInp2 = .ok r ∧
 /-- a configuration the composed model does not cover (not shipped): native MaxQuant grouping -/
 example : pipelineConfigOf false { badRescue with grouping := some "mq_native" } = none := by
   decide +kernel
+
+end PgFdr.C18
+
+/-! ## The command line as a whole
+
+`PgFdr.Cli.cliRun` (`Model/Cli.lean`) composes the stage models exactly as `run_picked_group_fdr` / `run_method` /
+`writers.finalize_output` do: annotations (C19) → method list (this file's `parseAll`) → one peptide → protein map per
+digestion parameter set if some method needs one (C09) → per method: evidence files of its input type, ingestion with
+the matching map (C10), `Pipeline.run` with the thresholds of the command line, the minimal writer (C13, C19 columns).
+It is tied to the real `main(argv)` by the correspondence of `harness/cli_model.py`. -/
+namespace PgFdr.C18
+open PgFdr.Cli
+open PgFdr.Generated (MethodToml)
+
+/-- "running it from the command line on valid input of the matching type completes and writes a protein-group
+    table for which the ranking, q-value and row-consistency guarantees above hold": for every run of the command
+    line that completes, every written table belongs to a method given in `--methods` (position `i`), which is a
+    shipped method whose TOML parses (under the run's pseudo-gene decision) to `cfg`, whose input was given, and whose
+    pipeline configuration is `pc`; the table's peptide list is that method's evidence ingested through the run's
+    peptide → protein maps (the maps of `--fasta` and the digestion flags if the method needs one) and is a dict; its
+    rows are the rows of `Pipeline.run pc` on that list with the thresholds of the command line and the method's own
+    recorded parameters; the written records are the header line and, per row, the nine base cells and the three
+    annotation cells rendered from the run's annotations; hence all six end-to-end guarantees
+    (`PipelineGuarantees pc`: `C01.pipeline_ranked_nonincreasing`, `C01.pipeline_qvals_spec`,
+    `C01.pipeline_threshold_sound`, `C01.pipeline_report_alignment`, `C06.pipeline_rows_consistent`,
+    `C06.pipeline_rows_disjoint`) hold for the run that produced the table. -/
+theorem cli_tables_satisfy_guarantees (inp : CliInput) (ts : List CliTable) (h : cliRun inp = .ok ts) :
+    ∃ (ann : C19.Dict) (usePseudo : Bool),
+      C19.getAnnotations inp.fasta inp.containsDecoys inp.geneLevel inp.useUniprot = .ok (ann, usePseudo) ∧
+      ∀ t ∈ ts, ∃ (i : Nat) (m : MethodToml) (cfg : Cfg) (pc : Pipeline.Config) (maps : List C10.DMap)
+          (r : Pipeline.Result),
+        inp.methods[i]? = some t.method ∧
+        findMethod Generated.methods t.method = .ok m ∧ parseMethod usePseudo m = .ok cfg ∧
+        runMethod (supplied inp) cfg = .ok () ∧
+        toPipelineConfig cfg = some pc ∧
+        (cfg.needsMap = true →
+          pepMaps inp.fasta inp.containsDecoys inp.geneLevel inp.useUniprot inp.dig usePseudo = .ok maps) ∧
+        t.pil = ingest inp maps cfg ∧ Pipeline.distinctPeptides t.pil ∧
+        Pipeline.run pc (pipelineInput inp t.pil (inp.recs.getD i default)) = .ok r ∧
+        t.run = r ∧ t.rows = r.rows ∧
+        renderTable ann r.rows = .ok t.records ∧
+        t.records = tableHeader :: r.rows.map (fun d => (cliRow ann d).toList) ∧
+        PipelineGuarantees pc := by
+  unfold cliRun at h
+  cases hos : cliOutcomes inp with
+  | error e => rw [hos] at h; simp at h
+  | ok os =>
+    rw [hos] at h
+    simp only [Except.ok.injEq] at h
+    subst h
+    unfold cliOutcomes at hos
+    have hco : cliOutcome inp = (os, none) := by
+      rcases hc : cliOutcome inp with ⟨os', e⟩
+      rw [hc] at hos
+      cases e with
+      | none => simp only [Except.ok.injEq] at hos; rw [hos]
+      | some e => simp at hos
+    unfold cliOutcome at hco
+    cases hs : setup inp with
+    | error e => rw [hs] at hco; simp at hco
+    | ok ec =>
+      obtain ⟨env, cfgs⟩ := ec
+      rw [hs] at hco
+      simp only at hco
+      obtain ⟨ha, hp, hm1, hm0⟩ := setup_spec inp env cfgs hs
+      refine ⟨env.ann, env.usePseudo, ha, ?_⟩
+      intro t ht
+      have hmem : some t ∈ os := by
+        obtain ⟨o, ho, hid⟩ := List.mem_filterMap.mp ht
+        simp only [id] at hid
+        subst hid
+        exact ho
+      obtain ⟨i, hi⟩ := List.getElem?_of_mem hmem
+      obtain ⟨hlen, hall⟩ := loop_ok inp env _ _ _ hco
+      have hilt : i < (items inp cfgs).length := by
+        rw [← hlen]
+        rcases Nat.lt_or_ge i os.length with h | h
+        · exact h
+        · rw [List.getElem?_eq_none_iff.mpr h] at hi; cases hi
+      obtain ⟨o, hrun, hoi⟩ := hall i _ (List.getElem?_eq_getElem hilt)
+      rw [hi] at hoi
+      have ho : o = some t := (Option.some.inj hoi).symm
+      subst ho
+      obtain ⟨hname, hcfg, hrec⟩ := items_getElem?_inv inp cfgs i _ (List.getElem?_eq_getElem hilt)
+      obtain ⟨pc, r, op, h1, h2, h3, h4, h5, h6, h7, h8, -, -, -⟩ := runMethod_table inp env _ _ _ _ t hrun
+      obtain ⟨-, hpa⟩ := parseAll_spec _ _ _ _ hp
+      have hmi : (inp.methods.map MethodRef.builtin)[i]? = some (.builtin (items inp cfgs)[i].1) := by
+        simp [hname]
+      obtain ⟨m, c, hres, hpm, hci⟩ := hpa i _ hmi
+      rw [hcfg] at hci
+      have hc : c = (items inp cfgs)[i].2.1 := (Option.some.inj hci).symm
+      subst hc
+      refine ⟨i, m, _, pc, env.maps, r, ?_, ?_, hpm, h1, h2, ?_, h3, ?_, ?_, h5, h6, h7, ?_, pipelineGuarantees pc⟩
+      · rw [h8]; exact hname
+      · rw [h8]; exact hres
+      · intro hn
+        exact hm1 (List.any_eq_true.mpr ⟨_, List.mem_of_getElem? hcfg, hn⟩)
+      · rw [h3]; exact ingest_distinct inp env.maps _
+      · rw [← hrec]; exact h4
+      · have := renderTable_eq env.ann r.rows
+        rw [h7] at this
+        exact Except.ok.inj this
+
+/-- what that means for the table as written: further down the table the score does not increase and the q-value
+    does not decrease, no protein is listed in two rows and none twice in a row — the observable guarantees the
+    oracle of `harness/cli_model.py` checks on every written file -/
+theorem cli_tables_sorted_disjoint (inp : CliInput) (ts : List CliTable) (h : cliRun inp = .ok ts) :
+    ∀ t ∈ ts,
+      (∀ (k l : Nat) (a b : C06.RowData), k < l → t.rows[k]? = some a → t.rows[l]? = some b →
+        b.score ≤ a.score ∧ a.qValue ≤ b.qValue) ∧
+      t.rows.Pairwise (fun a b => ∀ p, p ∈ a.proteins → p ∉ b.proteins) ∧
+      (∀ row ∈ t.rows, row.proteins.Nodup) := by
+  obtain ⟨ann, u, -, hall⟩ := cli_tables_satisfy_guarantees inp ts h
+  intro t ht
+  obtain ⟨i, m, cfg, pc, maps, r, -, -, -, -, -, -, -, hd, hrun, -, hrows, -, -, G⟩ := hall t ht
+  rw [hrows]
+  obtain ⟨hdis, hnd⟩ := G.disjoint _ r hrun hd
+  exact ⟨rows_sorted_of_guarantees pc G _ r hrun, hdis, hnd⟩
+
+/-- "(and several given at once)": the table of a method in a run with several methods is the table of that method
+    run alone with the same recorded parameters — same peptide list, same rows, same written records; only the file
+    name differs (the label suffix).  No method's outcome depends on which other methods were given, on their
+    order, or on what they did with the shared peptide → protein maps.  `cliOutcomes` holds one entry per method
+    (`none`: the method wrote nothing — no input file of its type). -/
+theorem cli_methods_independent (inp : CliInput) (os : List (Option CliTable)) (h : cliOutcomes inp = .ok os)
+    (i : Nat) (name : String) (hn : inp.methods[i]? = some name) :
+    ∃ (o o' : Option CliTable), os[i]? = some o ∧ cliOutcomes (inp.alone i) = .ok [o'] ∧
+      o'.map CliTable.content = o.map CliTable.content := by
+  unfold cliOutcomes at h
+  have hco : cliOutcome inp = (os, none) := by
+    rcases hc : cliOutcome inp with ⟨os', e⟩
+    rw [hc] at h
+    cases e with
+    | none => simp only [Except.ok.injEq] at h; rw [h]
+    | some e => simp at h
+  unfold cliOutcome at hco
+  cases hs : setup inp with
+  | error e => rw [hs] at hco; simp at hco
+  | ok ec =>
+    obtain ⟨env, cfgs⟩ := ec
+    rw [hs] at hco
+    simp only at hco
+    obtain ⟨-, hp, -, -⟩ := setup_spec inp env cfgs hs
+    obtain ⟨hlenp, hpa⟩ := parseAll_spec _ _ _ _ hp
+    have hmi : (inp.methods.map MethodRef.builtin)[i]? = some (.builtin name) := by simp [hn]
+    obtain ⟨m, c, -, -, hci⟩ := hpa i _ hmi
+    obtain ⟨env', hs', hann, -, hmaps⟩ := setup_alone inp env cfgs hs i name c hn hci
+    have hit := items_getElem? inp cfgs i name c hn hci
+    obtain ⟨-, hall⟩ := loop_ok inp env _ _ _ hco
+    obtain ⟨o, hrun, hoi⟩ := hall i _ hit
+    simp only at hrun
+    -- the same method, alone: one method given, so no suffix
+    obtain ⟨o', hrun', hcontent⟩ := runMethod_several inp env _ (decide ([c].length > 1)) name c _ o hrun
+    have hrun'' : Cli.runMethod (inp.alone i) env' (decide ([c].length > 1)) name c (inp.recs.getD i default) = .ok o' := by
+      rw [runMethod_alone, runMethod_env inp env env' _ name c _ hann hmaps]
+      exact hrun'
+    have hitems : items (inp.alone i) [c] = [(name, c, inp.recs.getD i default)] := by
+      simp [items, CliInput.alone, hn, recsFor]
+    refine ⟨o, o', hoi, ?_, hcontent⟩
+    unfold cliOutcomes cliOutcome
+    rw [hs']
+    simp only
+    rw [hitems, loop_single (inp.alone i) env' _ (name, c, inp.recs.getD i default) o' hrun'']
+
+/-- the same for the tables of a completed run: every written table is, up to its file name, the one table of the
+    run in which only its method is given -/
+theorem cli_table_alone (inp : CliInput) (ts : List CliTable) (h : cliRun inp = .ok ts) :
+    ∀ t ∈ ts, ∃ (i : Nat) (t' : CliTable), inp.methods[i]? = some t.method ∧
+      cliRun (inp.alone i) = .ok [t'] ∧ t'.content = t.content := by
+  intro t ht
+  unfold cliRun at h
+  cases hos : cliOutcomes inp with
+  | error e => rw [hos] at h; simp at h
+  | ok os =>
+    rw [hos] at h
+    simp only [Except.ok.injEq] at h
+    subst h
+    have hmem : some t ∈ os := by
+      obtain ⟨o, ho, hid⟩ := List.mem_filterMap.mp ht
+      simp only [id] at hid
+      subst hid
+      exact ho
+    obtain ⟨i, hi⟩ := List.getElem?_of_mem hmem
+    -- the method name at position i, through the loop
+    unfold cliOutcomes at hos
+    have hco : cliOutcome inp = (os, none) := by
+      rcases hc : cliOutcome inp with ⟨os', e⟩
+      rw [hc] at hos
+      cases e with
+      | none => simp only [Except.ok.injEq] at hos; rw [hos]
+      | some e => simp at hos
+    unfold cliOutcome at hco
+    cases hs : setup inp with
+    | error e => rw [hs] at hco; simp at hco
+    | ok ec =>
+      obtain ⟨env, cfgs⟩ := ec
+      rw [hs] at hco
+      simp only at hco
+      obtain ⟨hlen, hloop⟩ := loop_ok inp env _ _ _ hco
+      have hilt : i < (items inp cfgs).length := by
+        rw [← hlen]
+        rcases Nat.lt_or_ge i os.length with h | h
+        · exact h
+        · rw [List.getElem?_eq_none_iff.mpr h] at hi; cases hi
+      obtain ⟨hname, -, -⟩ := items_getElem?_inv inp cfgs i _ (List.getElem?_eq_getElem hilt)
+      obtain ⟨o, hrun, hoi⟩ := hloop i _ (List.getElem?_eq_getElem hilt)
+      rw [hi] at hoi
+      have ho : o = some t := (Option.some.inj hoi).symm
+      subst ho
+      obtain ⟨-, -, -, -, -, -, -, -, -, -, hmeth, -, -, -⟩ := runMethod_table inp env _ _ _ _ t hrun
+      have hos' : cliOutcomes inp = .ok os := by
+        unfold cliOutcomes cliOutcome
+        rw [hs]
+        simp only
+        rw [hco]
+      obtain ⟨o, o', h1, h2, h3⟩ := cli_methods_independent inp os hos' i _ hname
+      rw [hi] at h1
+      have : o = some t := (Option.some.inj h1).symm
+      subst this
+      cases o' with
+      | none => simp at h3
+      | some t' =>
+        simp only [Option.map_some, Option.some.injEq] at h3
+        refine ⟨i, t', ?_, ?_, h3⟩
+        · rw [hmeth]; exact hname
+        · unfold cliRun
+          rw [h2]
+          simp
+
+/-! Non-vacuity: a concrete command line — FASTA with one protein, default digestion, one MaxQuant evidence file
+with one PSM, the non-remapping method `picked_protein_group_mq_input_no_remap` next to `savitski_mq_best` — on
+which `setup` succeeds with two parsed methods, one of which needs the peptide → protein map. -/
+
+private def demoCli : CliInput :=
+  { fasta := some [[">P1".toList, "AAAAAAAKCCCCCCCR".toList]], containsDecoys := false, geneLevel := false,
+    useUniprot := false, dig := {}, methods := ["picked_protein_group_mq_input_no_remap", "savitski_mq_best"],
+    mq := some [[{ raw := { pep := "_AAAAAAAK_", mod := "", score := some (1 / 1000), prot := ["P1"], decoy := false },
+                   razorProt := "P1" }]],
+    perc := none, fragpipe := none, sage := none, diann := none, mokapot := false,
+    thr := 1 / 100, psm := 1 / 100, keepAll := false, out := some { dir := "d", stem := "out", suffix := ".txt" },
+    recs := [] }
+
+example : (methodsOfArg "a,b") = ["a", "b"] ∧ methodsOfArg "" = ["picked_protein_group"] := by decide +kernel
+
+example : ∃ cfgs, parseAll Generated.methods false (demoCli.methods.map MethodRef.builtin) = .ok cfgs ∧
+    cfgs.length = 2 ∧ cfgs.map Cfg.needsMap = [false, true] := by
+  refine ⟨[{ score := .bestPEP, origin := .mqNoRemap, razor := false, withShared := false, grouping := .rescuedSubset,
+             picked := .pickedGroup, label := "Picked Protein Group FDR" },
+           { score := .bestPEP, origin := .mq, razor := false, withShared := false, grouping := .no,
+             picked := .picked, label := "Savitski + MQ best PEP" }], ?_, rfl, ?_⟩ <;> decide +kernel
+
+example : (digestionParamsList { cleavages := [0, 2], enzyme := ["trypsin", "lys-c"] } false).toOption.map List.length
+    = some 2 := by decide +kernel
+
+example : (digestionParamsList { cleavages := [0, 2], minLength := [6, 7, 8] } false).toOption = none := by
+  decide +kernel
+
+private def demoCfg : Cfg :=
+  { score := .bestPEP, origin := .mqNoRemap, razor := false, withShared := false, grouping := .rescuedSubset,
+    picked := .pickedGroup, label := "x" }
+
+example : ingest demoCli [] demoCfg = [{ peptide := "AAAAAAAK", pep := 1 / 1000, proteins := ["P1"] }] := by
+  decide +kernel
+
+/-- a command line that completes (`Proofs/Cli.lean`, `demo_cli_run`): two Percolator methods given at once, no FASTA,
+    one evidence file; two tables with the label suffixes, the second from a two-pass (rescue) run — so the
+    hypotheses `cliRun inp = .ok ts` / `cliOutcomes inp = .ok os` of the theorems above are satisfiable with
+    `ts ≠ []` and a method list of length two -/
+example : ∃ t1 t2, cliRun demoRun = .ok [t1, t2] ∧ t1.file = "out_savitski.txt" ∧
+    t2.file = "out_picked_protein_group_fdr.txt" ∧ t1.rows = Pipeline.demoRows (1/2) 1 ∧
+    t2.run.pass2.isSome = true ∧ demoRun.methods.length = 2 := by
+  obtain ⟨t1, t2, h, -, h1, -, -, h2, -, -, h3, -, h4⟩ := demo_cli_run
+  exact ⟨t1, t2, h, h1, h2, h3, h4, rfl⟩
 
 end PgFdr.C18
